@@ -121,6 +121,19 @@ GROUPS = {
         nontrivial='schedules in which the running thread changes at least once',
         functions=['AddressLookupServices::{set_addr_filter, add, add_boxed, len, publish}'],
     ),
+    # C38: a schedule property; every interleaving of lookups and publishes at the cache lock / store / DHT boundaries
+    'zone_store_bx': dict(
+        unit='zone_store.rs', props=['C38'],
+        bounds=dict(quick=['2', '0'], thorough=['3', '6']),
+        space='EVERY schedule (controlled scheduler; scheduling points = each cache-mutex acquisition and each request to the packet store or the DHT) of the '
+              'two-task scenarios lookup | publish, lookup;lookup | publish, lookup | publish;publish, lookup | publish;read from 4 initial states (packet stored and '
+              'not cached / stored and cached / nothing stored / nothing stored and an older packet on the DHT), publish | publish and lookup | older-publish; with '
+              '{0} >= 3 also lookup | lookup | publish and lookup | publish | publish (stored, or DHT only), explored for every schedule with at most {1} pre-emptive '
+              'context switches (0 = not run / unbounded)',
+        nontrivial='schedules in which the running task changes at least once',
+        functions=['ZoneStore::{new, resolve, get_signed_packet, insert}', 'ZoneCache::{new, resolve, insert_and_resolve, insert_and_resolve_dht, insert, remove}',
+                   'CachedZone::{from_signed_packet, is_newer_than, resolve}', 'mutable_item_to_signed_packet'],
+    ),
     # second line behind the Verus unit builder_bind
     'builder_bind_bx': dict(
         unit='builder_bind.rs', props=['C20'],
